@@ -1022,6 +1022,17 @@ int main(int argc, char **argv) {
     } else if (os && FT->getReturnType()->isVoidTy()) {
       B << FnEmitter::fproto(F, true) << " { }\n"; stubbed.push_back(n.str());
     }
+    // std exception classes' out-of-line members (message storage is not modelled: what() returns "")
+    static const char *exc[] = {"_ZNSt13runtime_error", "_ZNKSt13runtime_error", "_ZNSt11logic_error", "_ZNKSt11logic_error", "_ZNSt12length_error", "_ZNSt12out_of_range",
+                                "_ZNSt9exception", "_ZNKSt9exception", "_ZNSt9bad_alloc", "_ZNKSt9bad_alloc", "_ZNSt16invalid_argument", "_ZNSt12domain_error", "_ZNSt14overflow_error",
+                                "_ZNSt11range_error", "_ZNSt8bad_cast", "_ZNKSt8bad_cast", "_ZNSt17bad_function_call", "_ZNKSt17bad_function_call", "_ZNSt20bad_array_new_length", "_ZNKSt20bad_array_new_length"};
+    bool ex = false; for (const char *e : exc) if (n.startswith(e)) ex = true;
+    if (ex && !os) {
+      if (FT->getReturnType()->isVoidTy()) B << FnEmitter::fproto(F, true) << " { }\n";
+      else if (FT->getReturnType()->isPointerTy()) B << FnEmitter::fproto(F, true) << " { static u8 empty[1]; return (" << ctype(FT->getReturnType()) << ")empty; }\n";
+      else continue;
+      stubbed.push_back(n.str());
+    }
   }
   // static initialisers (llvm.global_ctors) in priority order; harness entries call this first
   {
